@@ -2,7 +2,7 @@
     Only theorem statements; proofs are [exact] of lemmas from Proofs/. *)
 From Coq Require Import List ZArith NArith Bool.
 From HK Require Import Gen.Consts Model.Queue Model.QueueMon Proofs.QueueBase Proofs.QueueInv Proofs.QueueInvStep
-  Proofs.QueueStep Proofs.QueueLease Proofs.QueueRedeliver.
+  Proofs.QueueStep Proofs.QueueLease Proofs.QueueRedeliver Proofs.QueueMonC05.
 Import ListNotations.
 Open Scope Z_scope.
 
@@ -87,6 +87,22 @@ Example C05_witness :
   = [RUnit; RItems [(7%N, 1%N, 1, 1200)]; RUnit; RItems []; RItems [(7%N, 2%N, 2, 1800)]; RItems [(7%N, 3%N, 3, 2800)]].
 Proof. vm_compute. reflexivity. Qed.
 
+(** The executable monitor [P_C05] - what the correspondence check evaluates on traces of the Go stores -
+    holds on every trace of the model whose dequeue answers were accepted as valid choices: at every
+    dequeue, min(batch, must-offer) <= returned <= min(batch, may-offer), and only due or expired
+    messages are returned.  must-offer counts queued-and-due messages plus leases expired for at least
+    one SQLite sweep interval; may-offer counts every expired lease.  For the SQLite flavour the clock
+    must not run backwards (its sweep throttle compares clock readings). *)
+Theorem C05_monitor_holds_on_every_model_trace : forall fl c xs,
+  (fl = Sql -> monotone_from 0 xs) ->
+  Forall (fun e => ev_res e <> RBadOracle) (model_trace fl c xs) -> P_C05 fl c (model_trace fl c xs) = true.
+Proof. exact P_C05_holds_on_model. Qed.
+
+Theorem C05_monitor_holds_on_every_step : forall fl c s x o s' r,
+  Inv s -> sweep_ok fl (op_now x) s -> step fl c s x o = (s', r) -> r <> RBadOracle ->
+  c05_event (mkEvent x o r (msgs s) (msgs s')) = true.
+Proof. exact c05_event_holds. Qed.
+
 Print Assumptions C05_dequeue_count.
 Print Assumptions C05_all_ready_returned_when_capacity.
 Print Assumptions C05_nack_schedule.
@@ -95,3 +111,5 @@ Print Assumptions C05_expiry_visible.
 Print Assumptions C05_sql_swept_invariant.
 Print Assumptions C05_sql_expiry_bounded_delay.
 Print Assumptions C05_restart_sweeps.
+Print Assumptions C05_monitor_holds_on_every_model_trace.
+Print Assumptions C05_monitor_holds_on_every_step.
